@@ -166,6 +166,10 @@ type Augment struct {
 	// Late: the target path runs through the implicit case of a shorthand
 	// choice member, so it exists only after implicit cases were inserted.
 	Late bool `json:"late,omitempty"`
+	// Bare: steps in the namespace of the module the augment is written in are
+	// rendered without a prefix (an unprefixed name in a schema node identifier
+	// denotes the current module, RFC 7950 6.5).
+	Bare bool `json:"bare,omitempty"`
 }
 
 // Deviate is one deviate statement.
